@@ -148,6 +148,16 @@ def run(ctx):
                          "restored, SymlinkNode forwards it to the target), while the saved state is the raw __dict__" % m,
                          construct="%s.__setstate__: dict state restored through setattr" % m)
                 continue
+            if name == "__getstate__" and isinstance(mem, Func) and any(
+                    isinstance(c_, (ast.DictComp, ast.ListComp, ast.GeneratorExp)) and any(g_.ifs for g_ in c_.generators)
+                    and "__dict__" in norm(c_) for c_ in walk_own(mem.node)):
+                ctx.viol("P2", mem, mem.node, "%s.__getstate__ hands pickle/copy a filtered selection of the instance dict: entries (the link "
+                         "fields among them) are dropped from the saved state" % m, construct="%s.__getstate__ filters __dict__" % m)
+                continue
+            if name in ("__reduce_ex__", "__reduce__", "__getstate__", "__deepcopy__", "__copy__") and isinstance(mem, Func):
+                # a hand-written pickle/copy protocol: whether it still captures exactly the links is not decided here
+                ctx.extra.setdefault("undecided", []).append("P2: %s defines %s; what state it hands to pickle/copy is not followed" % (m, name))
+                continue
             if name in PICKLE_HOOKS and not (m == "SymlinkNodeMixin" and name in ("__getattr__", "__setattr__")):
                 f = mem if isinstance(mem, Func) else mem.getter
                 ctx.viol("P2", f, f.node, "%s defines %s: default pickling/copying no longer sees exactly the link fields" % (m, name),
